@@ -10,3 +10,6 @@ open IrVerif.AtomicSave
 #print axioms C08_overwritten_spec
 #print axioms C08_sharded_no_touch
 #print axioms C08_cleanup_gap
+#print axioms C08_unload_crash
+#print axioms C08_unload_fs_frame
+#print axioms C08_small_loaded_first
